@@ -246,7 +246,8 @@ class StaticUseDep(packages.PackageRestriction):
     def __init__(self, false_use, true_use):
         v = []
         if false_use:
-            v.append(values.ContainmentMatch(false_use, negate=True, match_all=True))
+            # every one of these flags must be disabled
+            v.append(values.ContainmentMatch(false_use, negate=True))
         if true_use:
             v.append(values.ContainmentMatch(true_use, match_all=True))
 
